@@ -171,4 +171,5 @@ def main():
     print(cnt)
 
 
-main()
+if __name__ == '__main__':
+    main()
